@@ -203,7 +203,7 @@ type stage struct {
 }
 
 func runOps(c *mon.C, w *wsutil.Writer, model *wops.Model, cfg Config, ops []wops.Op, hist []string) bool {
-	feed := &wops.Feed{}
+	feed := &wops.Feed{Rec: model.Rec}
 	trace := append([]string(nil), hist...)
 	for i, op := range ops {
 		c.Count(1)
